@@ -4,7 +4,11 @@ import (
 	"fmt"
 	"os"
 	"testing"
+
+	"verif/lib/vk"
 )
+
+func vkScratch() (string, func()) { return vk.Scratch("c14dev") }
 
 // TestDump writes the first I/size-3 file and its driver for manual timing.
 func TestDump(t *testing.T) {
@@ -47,4 +51,51 @@ func TestCount(t *testing.T) {
 			}
 		}
 	}
+}
+
+// TestRejects lists the functions of the expression frame / frame S that neo-go's compiler rejects.
+func TestRejects(t *testing.T) {
+	if os.Getenv("C14_REJECTS") == "" {
+		t.Skip()
+	}
+	setupEnv()
+	var fns []Fn
+	exprFns(true, func(f Fn) { fns = append(fns, f) })
+	prel := ""
+	if os.Getenv("C14_REJECTS") == "S" {
+		fns = nil
+		fr := frameS(true)
+		prel = fr.prelude
+		n := 0
+		fr.enumerate(2, 2, func(b []*node) {
+			n++
+			if fn, ok := fr.build(fmt.Sprintf("G%d", n), b); ok {
+				fns = append(fns, fn)
+			}
+		})
+	}
+	seen := map[string]int{}
+	var rec func(fs []Fn)
+	rec = func(fs []Fn) {
+		dir, cleanup := vkScratch()
+		defer cleanup()
+		_, err := neoCompile(dir, &Prog{Prelude: prel, Fns: fs})
+		if err == nil {
+			return
+		}
+		if len(fs) == 1 {
+			msg := err.Error()
+			if seen[msg[len(msg)-20:]] < 2 {
+				fmt.Println("REJECTED:", msg, "\n", fs[0].Src)
+			}
+			seen[msg[len(msg)-20:]]++
+			return
+		}
+		rec(fs[:len(fs)/2])
+		rec(fs[len(fs)/2:])
+	}
+	for i := 0; i < len(fns); i += 300 {
+		rec(fns[i:min(i+300, len(fns))])
+	}
+	fmt.Println(seen)
 }
